@@ -13,7 +13,7 @@ from harness import text as T
 
 # 30-symbol token alphabet (C01 / C20 quantifier: "every token sequence up to a small length bound")
 TOKENS = ["a", "B_c", '"s t"', "1", "-2", "3.5", "1.2.3", "true", "null", "$V", "§", "→", "->", "⊕", "+", "~", "@", "⇌", " vs ", "∧",
-          "∨", "[", "]", ",", "::", ":", "\n", "\n  ", " //c", "N<q>", "X[y]", " ", "---"]
+          "∨", "[", "]", ",", "::", ":", "\n", "\n  ", " //c", "N<q>", "X[y]", " ", "---", "True", "NULL"]
 
 
 def gen_case(seed: int, idx: int, zones=True, p=0.4):
